@@ -16,10 +16,12 @@
     Dispatch/Sched*.v, C04/C12).  The only exception is [SetGlobalMicro] at the end of this file: the three
     micro-steps of set_global_default, for the "succeeds exactly once under every interleaving" clause of C02.
 
-    Variant switch [fx]: [fx = false] is dispatch.rs as it is in /repo now (the thread-local caches a clone
-    of the global default — finding F1); [fx = true] is dispatch.rs after fixes/F1.patch (the thread-local
-    stays an [Option] and falls back to [get_global()] when it is [None]; [DefaultGuard] restores the prior
-    option rather than a cloned global).  Everything else is shared.
+    Variant switch [fx]: [fx = true] is dispatch.rs as it is in /repo now, after fix aa353f7 of finding F1 (the
+    thread-local stays an [Option] and falls back to [get_global()] when it is [None]; [DefaultGuard] restores the
+    prior option); [fx = false] is dispatch.rs before that fix (the thread-local caches a clone of the global
+    default; the guard's prior is a cloned global).  Everything else is shared.  The switch is never set by hand:
+    translators/dispatch_shape.py reads the four sites off the source on every run (coq/gen/Gen_dispatch.v,
+    Dispatch/Shape.v [fx_of_shape], Dispatch/Source.v [src_fx]); Properties/C02.v is stated about [src_fx].
 
     Parameters of a run: [static_max] (tracing::level_filters::STATIC_MAX_LEVEL, a compile-time constant of
     the build) and [conf : N -> collector], the assignment of filters to collectors in creation order.
@@ -198,7 +200,7 @@ Fixpoint remove_nth {A} (k : nat) (l : list A) : option (A * list A) :=
   end.
 
 Section Run.
-  Variable fx : bool.                 (* false: /repo as it is (F1 present); true: after fixes/F1.patch *)
+  Variable fx : bool.                 (* true: /repo as it is now (fix aa353f7); false: before it (finding F1); read off the source, see Source.v *)
   Variable static_max : levelfilter.  (* STATIC_MAX_LEVEL of the build *)
   Variable conf : N -> collector.
 
@@ -226,7 +228,7 @@ Section Run.
   (** ** dispatch.rs *)
   Definition get_global (s : state) : disp := match global s with Some g => DCol g | None => DNone end.
   (** get_default_slow and Entered::current: `default.get_or_insert_with(|| get_global().clone())`;
-      after the F1 repair: `match default { Some(d) => d, None => get_global() }`. *)
+      since the F1 repair ([fx = true]): `match default { Some(d) => d, None => get_global() }`. *)
   Definition slow (s : state) (t : N) : state * disp :=
     match tl (tls s t) with
     | Some d => (s, d)
